@@ -10,10 +10,26 @@ def hooks_commits():
         return []
 
 MC = "explicit-state model checking of the real controller code (BFS over deliver/work/env/clock/fault/crash transitions, canonical-state dedup, replay-validated)"
+JOBW = "Trusts the simulated API server/kubelet/informer model (DESIGN.md 2.1, 5); bounded workloads (<= 3 indexes, <= 3 attempts), deviation budgets and horizons per scenario; violations that need a stale cache, an injected fault plus a kill, or a foreign pod are recorded known findings (known_findings.json) and are reported as KNOWN-FINDING, everything else is a VIOLATION."
 CLAIMED = {
  "C08": dict(level="model_checking", tech=MC,
-   text="Exhaustive BFS over all interleavings of informer deliveries, reconciler syncs, kubelet outcomes (run/succeed/fail/vanish) and clock advances for Jobs with 1-2 indexes (none/withCount/withKeys/withMatrix), both strategies, maxAttempts 1-3, retryDelay 0/10s, cache lag <= 1 (quick) / 2 (thorough); every Pod create issued by the real jobcontroller is judged against the authoritative Pods and the simulated clock.",
-   note="Trusts the simulated API server/kubelet model (DESIGN.md 2.1, 5). Violations needing a stale Job cache are a recorded known finding; bounded workload sizes.", ref="4 C08"),
+   text="Exhaustive BFS over all interleavings of informer deliveries, reconciler syncs, kubelet outcomes (run/succeed/fail/vanish) and clock advances for Jobs with 1-2 indexes (none/withCount/withKeys/withMatrix), both strategies, maxAttempts 1-3, retryDelay 0/10s, cache lag <= 1 (quick) / 2 (thorough); every Pod create issued by the real jobcontroller is judged against the authoritative Pods, monitor memory of all pods ever created, and the simulated clock; quiescent states are checked for stuck Jobs.",
+   note=JOBW, ref="4 C08"),
+ "C09": dict(level="fault_enumeration", tech=MC + "; every API call of every reconcile pass enumerated as crash point and as failing call (error / conflict / applied-timeout)",
+   text="Inside the BFS every API call of every sync is a branching point: not-applied error, conflict, applied-but-timed-out, or process crash at that call (all in-memory state discarded, controllers rebuilt from the API). After recovery every status write and every quiescent state is checked: no attempt created twice, no task forgotten or recorded lost while its Pod exists, every controlled Pod listed, foreign Pods never adopted and leading to AdmissionError.",
+   note=JOBW, ref="4 C09"),
+ "C10": dict(level="model_checking", tech=MC + "; ground-truth oracle from the simulated kubelet's outcomes",
+   text="The write that makes a Job finished is compared with the ground truth of what the simulated kubelet did to each Pod (succeeded/failed/OOM/vanished/pending-timeout) for all outcome orders, shapes, strategies and attempts; quiescent states are checked for the converse (decided strategy => that result, leftovers stopped).",
+   note=JOBW, ref="4 C10"),
+ "C11": dict(level="model_checking", tech=MC + "; pairwise monitor on every Job version written",
+   text="Every Job object version written to the simulated API along every explored path (kubelet flapping, pod disappearance, kill, delete, faults) is compared with its predecessor (startTime, finished, result, finish time, createdTasks, per-task timestamps) and checked for internal coherence (one condition, state, phase, counters).",
+   note=JOBW, ref="4 C11"),
+ "C12": dict(level="model_checking", tech=MC + "; clock advanced to every deadline, armed-timer liveness at quiescence",
+   text="Every Pod delete (graceful or force) issued by the real controller is judged at the simulated clock against kill timestamp, effective pending timeout, job deletion, decided strategy and the force-delete gate; the clock is advanced to every deadline and quiescent states after it must have no live task and a Killed Job (kubelet prompt, late, or dead).",
+   note=JOBW, ref="4 C12"),
+ "C13": dict(level="model_checking", tech=MC + "; ordering monitor at Job removal, TTL clock monitor",
+   text="At the instant the simulated API removes a Job no listed task may still exist; controller-issued Job deletes are judged against finish time + effective TTL at the simulated clock; quiescent states must not hold a deleting Job without tasks or an expired finished Job. Explored for deletion at every phase, kubelet prompt/dead, TTL from job/config/zero.",
+   note=JOBW, ref="4 C13"),
 }
 PENDING_REASON = "check not built yet in this session (planned, see DESIGN.md section 4)"
 
